@@ -2,6 +2,8 @@ package main
 
 import (
 	"fmt"
+	"go/token"
+	"os"
 	"sort"
 	"strings"
 
@@ -78,6 +80,9 @@ func runC13(c *Ctx, r *Report, tier string) {
 					// key + ":" + unquoted value part
 					good := len(stores) == 1 && strings.HasPrefix(tv, `((before(iniValue.Value(new:iniValue), ":") + ":") + `) &&
 						(strings.Contains(tv, `call:strconv.Unquote(after(iniValue.Value(new:iniValue), ":"))#0`) || strings.HasSuffix(tv, `+ after(iniValue.Value(new:iniValue), ":"))`))
+					if !good && len(stores) == 1 {
+						good = c.rebuiltByHelper(ip, stores[0], al)
+					}
 					if good {
 						origins = append(origins, "&(key:unquoted)")
 					} else {
@@ -420,5 +425,108 @@ func (c *Ctx) priorityRules(r *Report, rule string, obn *ssa.Function) {
 			}
 		}
 		r.Check(len(seenK) == 4, rule, cn, "four priorities", c.pos(cl.Pos()), "4, 3, 2, 1", fmt.Sprintf("%d priorities assigned", len(seenK)))
+	}
+}
+
+// rebuiltByHelper: the stored string is result #0 of a new helper h(entry) (string, bool, error) called on the
+// entry's value; the store happens only under h's boolean verdict; and every return of h that can report
+// true returns key + ":" + strconv.Unquote(value part) of its parameter.
+func (c *Ctx) rebuiltByHelper(ip *ssa.Function, st *ssa.Store, cell *ssa.Alloc) bool {
+	v := st.Val
+	for {
+		if u, ok := v.(*ssa.UnOp); ok && u.Op == token.MUL {
+			if al, ok := u.X.(*ssa.Alloc); ok {
+				if ss, _ := c.cellStores(al); len(ss) == 1 {
+					v = ss[0].Val
+					continue
+				}
+			}
+		}
+		break
+	}
+	ex, ok := v.(*ssa.Extract)
+	if os.Getenv("GF_DBG13") != "" {
+		fmt.Fprintf(os.Stderr, "rebuilt: v=%T %s\n", v, v)
+	}
+	if !ok || ex.Index != 0 {
+		dbg13(1)
+		return false
+	}
+	call, ok := ex.Tuple.(*ssa.Call)
+	if !ok {
+		dbg13(2)
+		return false
+	}
+	h := call.Call.StaticCallee()
+	if h == nil || !c.isNew(h) || h.Signature.Results().Len() < 2 || relType(c, h.Signature.Results().At(1).Type()) != "bool" {
+		dbg13(3)
+		return false
+	}
+	if len(call.Call.Args) != 1 || c.term(call.Call.Args[0]) != "iniValue.Value(new:iniValue)" {
+		dbg13(4)
+		return false
+	}
+	var verdict *ssa.Extract
+	for _, ref := range *call.Referrers() {
+		if e2, ok := ref.(*ssa.Extract); ok && e2.Index == 1 {
+			verdict = e2
+		}
+	}
+	if verdict == nil {
+		dbg13(5)
+		return false
+	}
+	// the cell is handed on only under the verdict: every phi edge carrying its address is taken under `verdict == true`
+	isVerdict := func(l Lit) bool { return l.Pos && l.Term == c.term(verdict) }
+	if cell.Referrers() == nil {
+		dbg13(6)
+		return false
+	}
+	for _, ref := range *cell.Referrers() {
+		switch u := ref.(type) {
+		case *ssa.Store, *ssa.DebugRef:
+		case *ssa.Phi:
+			for i, e := range u.Edges {
+				if e != ssa.Value(cell) {
+					continue
+				}
+				pred := u.Block().Preds[i]
+				if l, has := c.edgeLitTo(pred, u.Block()); has && isVerdict(l) {
+					continue
+				}
+				if _, req := c.Requires(ip, isInstr(pred.Instrs[len(pred.Instrs)-1]), isVerdict, nil); !req {
+					dbg13(7)
+					return false
+				}
+			}
+		default:
+			dbg13(8)
+			return false
+		}
+	}
+	n := 0
+	for _, ret := range returnsOf(h) {
+		if k, isC := ret.Results[1].(*ssa.Const); isC && !constantBool(k) {
+			continue
+		}
+		n++
+		t := c.term(ret.Results[0])
+		okT := false
+		for _, src := range []string{"P0", "iniValue.Value(new:iniValue)"} {
+			if strings.HasPrefix(t, `((before(`+src+`, ":") + ":") + `) && strings.Contains(t, `call:strconv.Unquote(after(`+src+`, ":"))#0`) {
+				okT = true
+			}
+		}
+		if !okT {
+			dbg13(9)
+			return false
+		}
+	}
+	return n > 0
+}
+
+func dbg13(n int) {
+	if os.Getenv("GF_DBG13") != "" {
+		fmt.Fprintf(os.Stderr, "rebuilt: exit %d\n", n)
 	}
 }
